@@ -95,6 +95,13 @@ func (cr *chunkedReader) Read(b []uint8) (n int, err error) {
 			}
 		}
 	}
+	if cr.err == io.EOF {
+		// The stream ended inside a chunk (in its data or before the CRLF
+		// that ends it). Only the last-chunk read by beginChunk() is the end
+		// of the body: a bare io.EOF here would be remembered and reported
+		// to the next reader of the body as a clean end.
+		cr.err = io.ErrUnexpectedEOF
+	}
 	return n, cr.err
 }
 
